@@ -28,6 +28,26 @@ pub trait Scalar: MomTropFloat + Copy + 'static {
     fn as_f64(&self) -> Option<f64>;
     /// values handed to a `Logger::write` call: node ids narrowed by to_f64 (Sym) / the numbers (f64)
     fn capture_logged(js: &serde_json::Value) -> Vec<Self>;
+    /// symbolic run: (arguments, result) of every narrowing through f64 so far
+    fn narrow_log() -> Vec<(Vec<Self>, Self)> {
+        vec![]
+    }
+    /// symbolic run: every non-constant term on which to_f64 was called so far
+    fn to_f64_log() -> Vec<Self> {
+        vec![]
+    }
+    /// symbolic run: bit patterns of all constants that entered through from_f64
+    fn from_f64_consts() -> Vec<u64> {
+        vec![]
+    }
+    /// symbolic run: names of the variables the term depends on (syntactic cone)
+    fn cone_vars(&self) -> Option<Vec<String>> {
+        None
+    }
+    /// symbolic run: is there a Narrow node in the cone of the term?
+    fn cone_narrows(&self) -> Vec<Self> {
+        vec![]
+    }
     /// symbolic run: arguments of every square root taken so far (empty natively)
     fn arena_sqrt_args() -> Vec<Self> {
         vec![]
@@ -53,6 +73,28 @@ impl Scalar for Sym {
     }
     fn capture_logged(_js: &serde_json::Value) -> Vec<Self> {
         sym::CTX.with(|c| std::mem::take(&mut c.borrow_mut().pending_narrow)).into_iter().map(Sym).collect()
+    }
+    fn narrow_log() -> Vec<(Vec<Self>, Self)> {
+        sym::CTX.with(|c| c.borrow().narrow_events.iter().map(|(a, r)| (a.iter().map(|i| Sym(*i)).collect(), Sym(*r))).collect())
+    }
+    fn to_f64_log() -> Vec<Self> {
+        sym::CTX.with(|c| c.borrow().to_f64_log.iter().map(|i| Sym(*i)).collect())
+    }
+    fn from_f64_consts() -> Vec<u64> {
+        sym::CTX.with(|c| c.borrow().from_f64_consts.clone())
+    }
+    fn cone_vars(&self) -> Option<Vec<String>> {
+        Some(sym::CTX.with(|c| crate::smt::vars_in_cone(&c.borrow().nodes, &[self.0]).into_iter().collect()))
+    }
+    fn cone_narrows(&self) -> Vec<Self> {
+        sym::CTX.with(|c| {
+            let c = c.borrow();
+            crate::smt::cone(&c.nodes, &[self.0], &std::collections::HashMap::new())
+                .into_iter()
+                .filter(|i| matches!(c.nodes[*i as usize], sym::Node::Narrow(..)))
+                .map(Sym)
+                .collect()
+        })
     }
     fn arena_sqrt_args() -> Vec<Self> {
         sym::CTX.with(|c| {
